@@ -431,6 +431,7 @@ QInit == << Cnew("N", "n"), Ccreate("NL", 1, "l", 0), Ccreate("LD", 1, "a", 0), 
             Csetitem("C", 4, "k", "ab"),
             Csetitem("D", 2, "eid", "ab"), Csetitem("P", 3, "eid", "a"),
             Cconnect(1, IPin(3)), Cconnect(1, OPin(1, 1)), Cconnect(4, OPin(4, 3)), Cconnect(4, IPin(5)),
+            [op |-> "set_lower", kind |-> "P", x |-> 3, ival |-> 2],       \* the two-bit port a of cell ab is a[3:2]
             Csettopdef(1, 3) >>
 (* the same kind of design under the EDIF policy, with identifiers in mixed case, two of them CHANGED after *)
 (* the element joined its parent (the old spelling must not answer any more)                               *)
@@ -528,6 +529,20 @@ ScopeTable ==
                                                       [op |-> "add", rel |-> "DP", p |-> 2, x |-> 6, pos |-> 0] >>,
                                 !.max = [N |-> 1, L |-> 3, D |-> 3, P |-> 6, C |-> 2, I |-> 5, Q |-> 7, W |-> 4]],
     xf_port |-> XfPortScope,
+    \* the EDIF policy, cables and instances carry identifiers: flatten, add a new hierarchical cell, flatten again
+    xf_edif |-> [XfPortScope EXCEPT
+               !.init = << Csetdefault("EDIF"), Cnew("N", "n"), Ccreate("NL", 1, "work", 0),
+                           Ccreate("LD", 1, "leaf", 0), Ccreate("LD", 1, "mid", 0), Ccreate("LD", 1, "top", 0),
+                           Ccreate("DP", 1, "i", 1), Ccreate("DP", 2, "a", 1), Ccreate("DC", 2, "n", 1),
+                           Ccreate("DP", 3, "t", 1), Ccreate("DC", 3, "m", 2), Ccreate("DC", 2, "k", 1),
+                           Cchild(2, "l", 1), Cchild(3, "mm", 2), Cchild(3, "x", 1),
+                           Csetitem("C", 1, "eid", "n"), Csetitem("C", 2, "eid", "m"), Csetitem("C", 3, "eid", "k"),
+                           Csetitem("I", 1, "eid", "l"),
+                           Csetitem("I", 2, "eid", "mm"), Csetitem("I", 3, "eid", "x"),
+                           Cconnect(1, IPin(2)), Cconnect(1, OPin(1, 1)), Cconnect(2, OPin(2, 2)), Cconnect(2, IPin(3)),
+                           Csettopdef(1, 3) >>,
+               !.ops = {}, !.parents = {}, !.queries = {"xfe"},
+               !.max = [N |-> 1, L |-> 1, D |-> 3, P |-> 3, C |-> 3, I |-> 4, Q |-> 3, W |-> 4]],
     \* four levels: a (holding a leaf) is instanced directly under top AND inside m, which is instanced twice
     xf4 |-> [XfPortScope EXCEPT
                !.init = << Cnew("N", "n"), Ccreate("NL", 1, "work", 0),
@@ -655,7 +670,7 @@ ScopeTable ==
       [init |-> ConnInit,
        ops |-> {"connect", "disconnect", "disconnect_from", "reorder_pins", "create:PQ", "add:PQ",
                 "remove:PQ", "remove_from:PQ", "reorder:PQ", "new:Q", "remove:DP", "add:DP",
-                "remove:CW", "add:CW", "reorder:CW"},
+                "remove:CW", "add:CW", "reorder:CW", "set_attr:C", "set_attr:P"},
        max |-> [N |-> 1, L |-> 1, D |-> 2, P |-> 2, C |-> 1, I |-> 2, Q |-> 3, W |-> 2],
        names |-> {U}, vals |-> {}, pos |-> {NoPos, 0}, createN |-> {0}],
     mirror |->
@@ -704,6 +719,7 @@ QCands(s) ==
     \cup (IF "C12" \in Queries THEN QueryCandsC12(s) ELSE {})
     \cup (IF "hcheck" \in Queries THEN HCheckCands(s) ELSE {})
     \cup (IF "xf" \in Queries THEN XfCands(s) ELSE {})
+    \cup (IF "xfe" \in Queries THEN XfAgainCands(s) ELSE {})
     \cup (IF "clone" \in Queries THEN CloneCands(s) ELSE {})
     \cup (IF "C20" \in Queries THEN CompareCands(s) ELSE {})
     \cup FmtCands(s, Queries)
@@ -716,7 +732,7 @@ QCands(s) ==
     \cup ComposeCands(s, Queries)
     \cup ParseCands(s, Queries)
     \cup (IF "C13" \in Queries THEN RandomSubset(Scope.sample * (MaxDepth + 1), QueryProduct(s)) \cup DirectProduct(s)
-                                    \cup IndirectCableProduct(s) ELSE {})
+                                    \cup IndirectCableProduct(s) \cup IndexedNameProduct(s) ELSE {})
     \cup (IF "xf2" \in Queries
           THEN StepCands(s) \cup {[op |-> "uniquify", n |-> n] : n \in IdsN(s)}
                \cup {[op |-> "seq", calls |-> << [op |-> "uniquify", n |-> n], [op |-> "flatten", n |-> n] >>] : n \in IdsN(s)}
